@@ -1985,3 +1985,22 @@ def _str_truncate(ex, c, a, dt):
         except UnicodeDecodeError:
             raise Panic('assertion failed: self.is_char_boundary(new_len)')
     return UNIT
+
+# Arc strong count as environment: harnesses may attach a symbolic count of live clones to an ArcV (attribute `strong`)
+@native(('Arc', 'get_mut'))
+def _arc_get_mut2(ex, c, a, dt):
+    arc = deref_once(a[0])
+    strong = getattr(arc, 'strong', 1)
+    unique = truth(ex, binop('Eq', strong, 1, 'usize'))
+    return SOME(Ref(arc.cell)) if unique else NONE()
+@native(('Arc', 'strong_count'))
+def _arc_strong_count(ex, c, a, dt):
+    return getattr(deref_once(a[0]), 'strong', 1)
+@tnative(('PartialOrd', 'le'))
+def _le_generic(ex, c, a, dt):
+    x, y = deref(a[0]), deref(a[1])
+    if type(x) is Enum and type(y) is Enum:
+        return x.vi <= y.vi
+    if type(x) is Opaque or type(y) is Opaque:
+        return False            # log level comparisons: logging is off in the model
+    return _ord_ops(ex, c, a, dt)
